@@ -402,6 +402,14 @@ func (n *Net) Step() []string {
 		u := users[n.r.Intn(len(users))]
 		n.nickN++
 		neu := fmt.Sprintf("%sx%d", strings.TrimRight(u, "_0123456789x"), n.nickN)
+		if n.r.Intn(4) == 0 {
+			// a change of letter case only (servers treat it as a normal rename)
+			if c := flipCase(u); c != u {
+				if _, taken := n.Users[c]; !taken {
+					neu = c
+				}
+			}
+		}
 		visible := n.sharesWithMe(u)
 		pfx := n.prefix(u)
 		usr := n.Users[u]
@@ -436,6 +444,11 @@ func (n *Net) Step() []string {
 	case kind < 14: // I change nick
 		n.nickN++
 		neu := fmt.Sprintf("me%d", n.nickN)
+		if n.r.Intn(4) == 0 {
+			if c := flipCase(n.Me); c != n.Me {
+				neu = c
+			}
+		}
 		pfx := n.prefix(n.Me)
 		old := n.Me
 		for _, cc := range n.Chans {
@@ -620,6 +633,20 @@ func (n *Net) Step() []string {
 		}
 		return []string{line}
 	}
+}
+
+// flipCase changes the letter case of the first letter of s.
+func flipCase(s string) string {
+	for i := 0; i < len(s); i++ {
+		c := s[i]
+		switch {
+		case c >= 'a' && c <= 'z':
+			return s[:i] + string(c-32) + s[i+1:]
+		case c >= 'A' && c <= 'Z':
+			return s[:i] + string(c+32) + s[i+1:]
+		}
+	}
+	return s
 }
 
 func vmodes(v *VChan) *state.ChanMode {
